@@ -28,7 +28,7 @@ ANCHORS = ["ginjax.ml.training:train_step", "ginjax.ml.training:train", "ginjax.
 MIN_NONTRIVIAL = {"quick": 5, "thorough": 80}
 WORKERS = {"quick": 8, "thorough": 16}
 TIMEOUT = {"quick": 1500, "thorough": 10800}
-MAX_INCONCLUSIVE_FRAC = 0.3
+MAX_INCONCLUSIVE_FRAC = 0.4
 
 
 def cases(tier, seed):
@@ -163,9 +163,15 @@ def run(case, ctx):
                 out = jax.vmap(lambda xi: m(xi)[0])(x)
                 return lossf(out, y), aux
 
-            opt = {"sgd": optax.sgd(2e-3), "adam": optax.adam(1e-2), "adamw": optax.adamw(1e-2, weight_decay=0.1)}[case["opt"]]
-            trained = ml.train(X, Y, map_and_loss, model, jax.random.PRNGKey(case["i"]), ml.EpochStop(epochs), B, opt)[0]
-            evals += 1
+            # a history that diverges numerically (non-finite parameters) is repeated with a 10x smaller step size
+            for shrink in (1.0, 0.1, 0.01):
+                opt = {"sgd": optax.sgd(2e-3 * shrink), "adam": optax.adam(1e-2 * shrink), "adamw": optax.adamw(1e-2 * shrink, weight_decay=0.1)}[case["opt"]]
+                trained = ml.train(X, Y, map_and_loss, model, jax.random.PRNGKey(case["i"]), ml.EpochStop(epochs), B, opt)[0]
+                evals += 1
+                if all(np.all(np.isfinite(a)) for _, a in mlgen.param_leaves(trained)):
+                    break
+                _mon.take()
+                steps0, moved0 = _mon.steps, _mon.moved
             viols += _mon.take()
             steps = _mon.steps - steps0
             moved = _mon.moved - moved0
